@@ -112,7 +112,10 @@ pub struct C16;
 pub struct WriterScript {
     /// MPSC only, writers after the first: false = `SpillPoolWriter::clone()`, true = `new_sink()`
     pub sink: bool,
-    /// row-count codes of the pushed batches: 0 → empty, 1 → 1 row, 2 → 20 rows, 3 → 100 rows
+    /// script: 0 → push an empty batch, 1 → 1 row, 2 → 20 rows, 3 → 100 rows;
+    /// 4..=8 → `WaitDelivered(code-3)`: park until the reader has delivered that many batches in total
+    /// (clamped to what has been pushed successfully so far and to `reader_max`; only effective with a
+    /// single writer handle, where every pushed batch is immediately readable)
     pub pushes: Vec<u8>,
 }
 
@@ -136,7 +139,6 @@ pub struct Case {
     pub schedule: Schedule,
 }
 
-const KNOWN_SIG: &str = "quota+polling-reader";
 
 fn rows_of(code: u8) -> usize {
     match code {
@@ -145,6 +147,20 @@ fn rows_of(code: u8) -> usize {
         2 => 20,
         _ => 100,
     }
+}
+
+/// script codes 4..=8 are not pushes but `WaitDelivered(code - 3)`
+fn wait_of(code: u8) -> Option<usize> {
+    if (4..=8).contains(&code) { Some(code as usize - 3) } else { None }
+}
+
+/// Harness-level rendezvous "the reader has delivered ≥ n batches" (only the baton holder touches it).
+#[derive(Default)]
+struct Delivery {
+    delivered: usize,
+    ok_pushed: usize,
+    reader_gone: bool,
+    waiters: Vec<std::task::Waker>,
 }
 
 fn schema() -> SchemaRef {
@@ -204,6 +220,7 @@ fn max_file_size(case: &Case, schema: &SchemaRef) -> usize {
 enum Ev {
     PushStart { w: usize, id: i32, rows: usize },
     PushEnd { id: i32, rows: usize, ok: bool, err: String },
+    Waited { w: usize, target: usize, parked: bool },
     WriterDropStart { w: usize },
     WriterDropEnd { w: usize },
     Recv { id: i32, rows: usize, intact: bool },
@@ -295,7 +312,7 @@ fn dry_run(case: &Case, env: &Arc<RuntimeEnv>, schema: &SchemaRef) -> Result<Vec
         for (w, h) in handles.iter().enumerate() {
             if let Some(code) = case.writers[w].pushes.get(k) {
                 let rows = rows_of(*code);
-                if rows == 0 {
+                if rows == 0 || wait_of(*code).is_some() {
                     continue;
                 }
                 h.push(&batch(schema, 0, rows)).map_err(|e| format!("dry run push failed: {e}"))?;
@@ -333,13 +350,43 @@ fn execute(case: &Case) -> Result<Outcome16, String> {
 
     let history: Mutex<Vec<Ev>> = Mutex::new(Vec::new());
     let log = |e: Ev| history.lock().unwrap_or_else(|p| p.into_inner()).push(e);
+    let delivery: Mutex<Delivery> = Mutex::new(Delivery::default());
+    let single_writer = handles.len() == 1;
+    let reader_cap = case.reader_max.map(|m| m as usize).unwrap_or(usize::MAX);
     let mut actors: Vec<Actor<'_>> = vec![];
     for (w, h) in handles.into_iter().enumerate() {
         let log = &log;
+        let delivery = &delivery;
         let script = &case.writers[w];
         let schema = schema.clone();
         actors.push(Actor::new(format!("writer{w}"), move |ctx: &ActorCtx| {
-            for (k, code) in script.pushes.iter().take(6).enumerate() {
+            for (k, code) in script.pushes.iter().take(8).enumerate() {
+                if let Some(n) = wait_of(*code) {
+                    // Sound only where delivery of everything pushed so far needs no further writer
+                    // action: one writer handle (one open file, always last in the queue).
+                    if !single_writer {
+                        continue;
+                    }
+                    let target = {
+                        let d = delivery.lock().unwrap_or_else(|p| p.into_inner());
+                        n.min(d.ok_pushed).min(reader_cap)
+                    };
+                    ctx.yield_now(format!("wait_delivered({target})"));
+                    let mut waited = false;
+                    loop {
+                        {
+                            let mut d = delivery.lock().unwrap_or_else(|p| p.into_inner());
+                            if d.delivered >= target || d.reader_gone {
+                                break;
+                            }
+                            d.waiters.push(ctx.waker().clone());
+                        }
+                        waited = true;
+                        ctx.park();
+                    }
+                    log(Ev::Waited { w, target, parked: waited });
+                    continue;
+                }
                 let rows = rows_of(*code);
                 let id = (w as i32 + 1) * 100 + k as i32;
                 let b = batch(&schema, id, rows);
@@ -348,6 +395,9 @@ fn execute(case: &Case) -> Result<Outcome16, String> {
                 let r = h.push(&b);
                 if r.is_err() {
                     ctx.note(format!("push(id={id}) -> Err"));
+                }
+                if r.is_ok() && rows > 0 {
+                    delivery.lock().unwrap_or_else(|p| p.into_inner()).ok_pushed += 1;
                 }
                 log(Ev::PushEnd { id, rows, ok: r.is_ok(), err: r.err().map(|e| truncate(&e.to_string(), 120)).unwrap_or_default() });
             }
@@ -359,6 +409,7 @@ fn execute(case: &Case) -> Result<Outcome16, String> {
     }
     {
         let log = &log;
+        let delivery = &delivery;
         let reader_max = case.reader_max;
         let rt_handle = rt_handle.clone();
         actors.push(Actor::new("reader", move |ctx: &ActorCtx| {
@@ -402,6 +453,14 @@ fn execute(case: &Case) -> Result<Outcome16, String> {
                             _ => (-1, false),
                         };
                         log(Ev::Recv { id, rows: b.num_rows(), intact });
+                        let waiters = {
+                            let mut d = delivery.lock().unwrap_or_else(|p| p.into_inner());
+                            d.delivered += 1;
+                            std::mem::take(&mut d.waiters)
+                        };
+                        for wk in waiters {
+                            wk.wake();
+                        }
                     }
                     Some(Err(e)) => {
                         log(Ev::ReadErr(truncate(&e.to_string(), 300)));
@@ -412,6 +471,16 @@ fn execute(case: &Case) -> Result<Outcome16, String> {
                         break;
                     }
                 }
+            }
+            // a reader that stops after a read error must not strand a waiting writer (the error itself
+            // is the violation); after end-of-stream / reader_max no writer can be waiting (targets are clamped)
+            let waiters = {
+                let mut d = delivery.lock().unwrap_or_else(|p| p.into_inner());
+                d.reader_gone = true;
+                std::mem::take(&mut d.waiters)
+            };
+            for wk in waiters {
+                wk.wake();
             }
             ctx.yield_now("drop(reader)");
             drop(reader);
@@ -433,6 +502,7 @@ fn execute(case: &Case) -> Result<Outcome16, String> {
 }
 
 struct Summary {
+    writer_waited: bool,
     push_failed: bool,
     ok_before_failure: bool,
     delivered: usize,
@@ -452,6 +522,7 @@ fn check_history(case: &Case, history: &[Ev], complete: bool) -> Result<Summary,
     let mut early = false;
     let mut push_failed = false;
     let mut ok_before_failure = false;
+    let mut writer_waited = false;
     for (i, e) in history.iter().enumerate() {
         match e {
             Ev::PushStart { id, rows, .. } => {
@@ -475,6 +546,7 @@ fn check_history(case: &Case, history: &[Ev], complete: bool) -> Result<Summary,
             }
             Ev::WriterDropStart { .. } => drops_started += 1,
             Ev::WriterDropEnd { .. } => {}
+            Ev::Waited { parked, .. } => writer_waited |= *parked,
             Ev::Recv { id, rows, intact } => {
                 if eof {
                     return Err(format!("event {i}: batch {id} delivered after end-of-stream"));
@@ -527,7 +599,7 @@ fn check_history(case: &Case, history: &[Ev], complete: bool) -> Result<Summary,
             return Err(format!("delivered ids {have:?} differ from successfully pushed ids {want:?}"));
         }
     }
-    Ok(Summary { push_failed, ok_before_failure, delivered: received.len(), eof, early, failed_delivered: received.iter().any(|id| failed_ids.contains(id)) })
+    Ok(Summary { writer_waited, push_failed, ok_before_failure, delivered: received.len(), eof, early, failed_delivered: received.iter().any(|id| failed_ids.contains(id)) })
 }
 
 fn fmt_history(h: &[Ev]) -> String {
@@ -582,7 +654,7 @@ fn judge_once(case: &Case, detcheck: bool) -> CaseResult {
         Err(m) => return CaseResult::violation(format!("{m}\n{}", ctx_text(60))).label("history"),
     };
     if !complete {
-        let what = if summary.push_failed { "after a failed push the reader never terminates: " } else { "" };
+        let what = if summary.push_failed { "after a failed push the reader never terminates: " } else { "reader not woken although data / end-of-stream is available: " };
         return CaseResult::violation(format!("{what}{}", ctx_text(60))).label("deadlock");
     }
     if out.disk_left != 0 {
@@ -602,6 +674,9 @@ fn judge_once(case: &Case, detcheck: bool) -> CaseResult {
     }
     if summary.eof {
         r = r.label("end-of-stream");
+    }
+    if summary.writer_waited {
+        r = r.label("writer-parked-until-delivered");
     }
     if summary.early {
         r = r.label("reader-dropped-early");
@@ -637,8 +712,8 @@ impl Property for C16 {
     }
     fn strategy(&self, tier: Tier) -> BoxedStrategy<Case> {
         let max_pre = tier.pick(3, 4);
-        let code = prop_oneof![1 => Just(0u8), 2 => Just(1u8), 4 => Just(2u8), 2 => Just(3u8)];
-        let writer = (any::<bool>(), prop::collection::vec(code, 0..=4)).prop_map(|(sink, pushes)| WriterScript { sink, pushes });
+        let code = prop_oneof![1 => Just(0u8), 2 => Just(1u8), 4 => Just(2u8), 2 => Just(3u8), 2 => 4u8..=8];
+        let writer = (any::<bool>(), prop::collection::vec(code, 0..=6)).prop_map(|(sink, pushes)| WriterScript { sink, pushes });
         let quota = prop::option::weighted(0.5, (0u8..=7, prop_oneof![2 => Just(0u16), 1 => 1u16..=8, 2 => 9u16..=400]).prop_map(|(after_pushes, extra)| Quota { after_pushes, extra }));
         (
             any::<bool>(),
@@ -666,9 +741,6 @@ impl Property for C16 {
             "push failures are injected through DiskManager's max_temp_directory_size only (write(2) errors of the OS are C21's domain)".into(),
             "a batch whose push returned Err may or may not be delivered".into(),
         ]
-    }
-    fn known_signature(&self, case: &Case) -> Option<String> {
-        if case.quota.is_some() && case.reader_max != Some(0) { Some(KNOWN_SIG.to_string()) } else { None }
     }
     fn run(&self, case: &Case) -> CaseResult {
         if case.writers.is_empty() {
